@@ -140,3 +140,351 @@ pub fn singleton_rows(
     }
     Ok(rows)
 }
+
+// ------------------------------------------------------------------ counter
+
+#[derive(Clone, Debug)]
+pub struct CountCfg {
+    pub k: usize,
+    pub threads: usize,
+    /// memory ceiling in GB (the public setter's unit); the per-chunk limit is
+    /// 1e9 * gb / 8 bases
+    pub gb: f64,
+    pub acgt: bool,
+    pub delete: bool,
+}
+
+impl CountCfg {
+    pub fn from_params(p: &Params) -> Self {
+        CountCfg {
+            k: pu64(p, "k") as usize,
+            threads: pu64(p, "threads") as usize,
+            gb: pf64(p, "gb"),
+            acgt: pbool(p, "acgt"),
+            delete: pbool(p, "delete"),
+        }
+    }
+    /// ceiling (GB) that makes the per-chunk limit exactly `limit` bases
+    pub fn gb_for_limit(limit: u64) -> f64 {
+        // limit = floor(1e9 * gb / 8); the half keeps the float away from the edge
+        (limit as f64 + 0.5) * 8.0 / 1e9
+    }
+    pub fn limit(&self) -> u64 {
+        (1_000_000_000_f64 * self.gb / 8.0) as u64
+    }
+    /// number of partitions the run will use (mirrors the documented sizing rule:
+    /// at least one per thread, more when the data exceeds twice the ceiling)
+    pub fn expected_parts(&self, total_bases: usize) -> u64 {
+        let data_gb = total_bases as f64 / (1u64 << 30) as f64;
+        std::cmp::max(self.threads as u64, (8.0 * data_gb / (2.0 * self.gb)).ceil() as u64)
+    }
+}
+
+pub fn run_counter(
+    in_path: &str,
+    out_dir: &Path,
+    cfg: &CountCfg,
+    sched: &Sched,
+    io: &IoSpec,
+    abort_at: Option<u64>,
+    steps: usize,
+) -> ExecResult<Result<(), String>> {
+    let in_path = in_path.to_string();
+    let out_s = path_str(out_dir);
+    let c = cfg.clone();
+    sim(sched, io, None, abort_at, 4, steps, move || {
+        let mut ctr = counter::CountComputer::new(in_path, out_s, c.k);
+        ctr.set_threads(c.threads);
+        ctr.set_max_memory(c.gb);
+        ctr.set_acgt_output(c.acgt);
+        ctr.count();
+        ctr.merge(c.delete);
+    })
+}
+
+/// Parse a counts table ("key<TAB>count" per line) into (key text, count) pairs.
+pub fn parse_counts(bytes: &[u8]) -> Result<Vec<(String, u64)>, String> {
+    let text = std::str::from_utf8(bytes).map_err(|_| "counts file is not UTF-8".to_string())?;
+    let mut v = Vec::new();
+    if !text.is_empty() && !text.ends_with('\n') {
+        return Err("counts file does not end with a newline".into());
+    }
+    for (i, line) in text.lines().enumerate() {
+        let mut it = line.split('\t');
+        let k = it.next().ok_or_else(|| format!("line {i}: no key"))?;
+        let c = it
+            .next()
+            .ok_or_else(|| format!("line {i}: no count: {line:?}"))?
+            .parse::<u64>()
+            .map_err(|_| format!("line {i}: bad count: {line:?}"))?;
+        if it.next().is_some() || k.is_empty() {
+            return Err(format!("line {i}: malformed: {line:?}"));
+        }
+        v.push((k.to_string(), c));
+    }
+    Ok(v)
+}
+
+// ----------------------------------------------------------------- coverage
+
+#[derive(Clone, Debug)]
+pub struct CovCfg {
+    pub k: usize,
+    pub threads: usize,
+    pub gb: f64,
+    pub norm: bool,
+    pub delim: String,
+    pub bin_size: usize,
+    pub bin_count: usize,
+}
+
+impl CovCfg {
+    pub fn from_params(p: &Params) -> Self {
+        CovCfg {
+            k: pu64(p, "k") as usize,
+            threads: pu64(p, "threads") as usize,
+            gb: pf64(p, "gb"),
+            norm: pbool(p, "norm"),
+            delim: pstr(p, "delim"),
+            bin_size: pu64(p, "bin_size") as usize,
+            bin_count: pu64(p, "bin_count") as usize,
+        }
+    }
+}
+
+pub fn run_cov(
+    in_path: &str,
+    alt_path: Option<&str>,
+    out_dir: &Path,
+    cfg: &CovCfg,
+    sched: &Sched,
+    io: &IoSpec,
+    abort_at: Option<u64>,
+    steps: usize,
+) -> ExecResult<Result<Result<(), String>, String>> {
+    let in_path = in_path.to_string();
+    let alt = alt_path.map(|s| s.to_string());
+    let out_s = path_str(out_dir);
+    let c = cfg.clone();
+    sim(sched, io, None, abort_at, 4, steps, move || {
+        let mut cov = coverage::CovComputer::new(in_path, out_s, c.k, c.bin_size, c.bin_count);
+        cov.set_threads(c.threads);
+        cov.set_norm(c.norm);
+        cov.set_delim(c.delim.clone());
+        cov.set_max_memory(c.gb);
+        if let Some(a) = alt {
+            cov.set_kmer_path(a);
+        }
+        cov.build_table()?;
+        cov.compute_coverages();
+        Ok(())
+    })
+}
+
+// --------------------------------------------------------------- minimisers
+
+#[derive(Clone, Debug)]
+pub struct MinCfg {
+    pub w: usize,
+    pub m: usize,
+    pub threads: usize,
+    /// "s2m" or "m2s"
+    pub preset: String,
+}
+
+impl MinCfg {
+    pub fn from_params(p: &Params) -> Self {
+        MinCfg {
+            w: pu64(p, "w") as usize,
+            m: pu64(p, "m") as usize,
+            threads: pu64(p, "threads") as usize,
+            preset: pstr(p, "preset"),
+        }
+    }
+}
+
+pub fn run_min(
+    in_path: &str,
+    out_path: &Path,
+    cfg: &MinCfg,
+    sched: &Sched,
+    io: &IoSpec,
+    abort_at: Option<u64>,
+    global_threads: usize,
+    steps: usize,
+) -> ExecResult<Result<(), String>> {
+    let in_path = in_path.to_string();
+    let out_s = path_str(out_path);
+    let c = cfg.clone();
+    sim(sched, io, None, abort_at, global_threads, steps, move || {
+        if c.preset == "m2s" {
+            misc::minimisers::bin_sequences(c.w, c.m, &in_path, &out_s, c.threads);
+        } else {
+            misc::minimisers::seq_to_min(c.w, c.m, &in_path, &out_s, c.threads);
+        }
+    })
+}
+
+pub type Run = (String, usize, usize);
+
+/// Strict parser of the sequence-to-minimiser listing: one line per record,
+/// `id<TAB>MMER:start-end<TAB>...<TAB>` (every field is followed by a tab).
+pub fn parse_s2m(bytes: &[u8]) -> Result<Vec<(String, Vec<Run>)>, String> {
+    let text = std::str::from_utf8(bytes).map_err(|_| "not UTF-8".to_string())?;
+    if !text.is_empty() && !text.ends_with('\n') {
+        return Err("listing does not end with a newline".into());
+    }
+    let mut out = Vec::new();
+    for (ln, line) in text.lines().enumerate() {
+        let body = line
+            .strip_suffix('\t')
+            .ok_or_else(|| format!("line {ln} does not end with a tab: {:?}", clip(line, 100)))?;
+        let mut it = body.split('\t');
+        let id = it.next().unwrap_or("");
+        if id.is_empty() {
+            return Err(format!("line {ln} has no id: {:?}", clip(line, 100)));
+        }
+        let mut runs = Vec::new();
+        for f in it {
+            let (mm, range) = f
+                .split_once(':')
+                .ok_or_else(|| format!("line {ln}: malformed run {:?}", clip(f, 60)))?;
+            let (s, e) = range
+                .split_once('-')
+                .ok_or_else(|| format!("line {ln}: malformed range {:?}", clip(f, 60)))?;
+            if mm.is_empty() || !mm.bytes().all(|b| b"ACGT".contains(&b)) {
+                return Err(format!("line {ln}: malformed minimiser text {:?}", clip(f, 60)));
+            }
+            let s: usize = s.parse().map_err(|_| format!("line {ln}: bad start in {:?}", clip(f, 60)))?;
+            let e: usize = e.parse().map_err(|_| format!("line {ln}: bad end in {:?}", clip(f, 60)))?;
+            runs.push((mm.to_string(), s, e));
+        }
+        out.push((id.to_string(), runs));
+    }
+    Ok(out)
+}
+
+/// Strict parser of the minimiser-to-sequence listing:
+/// `MMER<TAB>[("id", start, end), ...]` per line.
+pub fn parse_m2s(bytes: &[u8]) -> Result<Vec<(String, Vec<Run>)>, String> {
+    let text = std::str::from_utf8(bytes).map_err(|_| "not UTF-8".to_string())?;
+    if !text.is_empty() && !text.ends_with('\n') {
+        return Err("listing does not end with a newline".into());
+    }
+    let mut out = Vec::new();
+    for (ln, line) in text.lines().enumerate() {
+        let (mm, rest) = line
+            .split_once('\t')
+            .ok_or_else(|| format!("line {ln}: no tab: {:?}", clip(line, 100)))?;
+        if mm.is_empty() || !mm.bytes().all(|b| b"ACGT".contains(&b)) {
+            return Err(format!("line {ln}: malformed minimiser text {:?}", clip(mm, 60)));
+        }
+        let inner = rest
+            .strip_prefix('[')
+            .and_then(|r| r.strip_suffix(']'))
+            .ok_or_else(|| format!("line {ln}: list not bracketed: {:?}", clip(rest, 100)))?;
+        let mut entries = Vec::new();
+        if !inner.is_empty() {
+            for e in inner.split("), (") {
+                let e = e.trim_start_matches('(').trim_end_matches(')');
+                let mut parts = e.rsplitn(3, ", ");
+                let end = parts.next().ok_or_else(|| format!("line {ln}: bad entry {:?}", e))?;
+                let start = parts.next().ok_or_else(|| format!("line {ln}: bad entry {:?}", e))?;
+                let id = parts.next().ok_or_else(|| format!("line {ln}: bad entry {:?}", e))?;
+                let id = id
+                    .strip_prefix('"')
+                    .and_then(|s| s.strip_suffix('"'))
+                    .ok_or_else(|| format!("line {ln}: id not quoted in {:?}", e))?;
+                let s: usize = start.parse().map_err(|_| format!("line {ln}: bad start in {:?}", e))?;
+                let en: usize = end.parse().map_err(|_| format!("line {ln}: bad end in {:?}", e))?;
+                entries.push((id.to_string(), s, en));
+            }
+        }
+        out.push((mm.to_string(), entries));
+    }
+    Ok(out)
+}
+
+// ---------------------------------------------------------------------- CGR
+
+#[derive(Clone, Debug)]
+pub struct CgrCfg {
+    /// 0 = whole-sequence CGR, otherwise k-mer CGR with this k
+    pub k: usize,
+    pub vecsize: usize,
+    pub threads: usize,
+    pub memory: usize,
+    pub norm: bool,
+    pub stdin: bool,
+}
+
+impl CgrCfg {
+    pub fn from_params(p: &Params) -> Self {
+        CgrCfg {
+            k: pu64(p, "k") as usize,
+            vecsize: pu64(p, "vecsize") as usize,
+            threads: pu64(p, "threads") as usize,
+            memory: pu64(p, "memory") as usize,
+            norm: pbool(p, "norm"),
+            stdin: pbool(p, "stdin"),
+        }
+    }
+}
+
+pub fn run_cgr(
+    dir: &Path,
+    stem: &str,
+    records: &[Rec],
+    container: &Container,
+    cfg: &CgrCfg,
+    sched: &Sched,
+    io: &IoSpec,
+    abort_at: Option<u64>,
+    steps: usize,
+    out_path: &Path,
+) -> (ExecResult<Result<Result<(), String>, String>>, RunOut) {
+    let (in_path, stdin) = if cfg.stdin {
+        ("-".to_string(), Some(render_bytes(records, container)))
+    } else {
+        (write_input(dir, stem, records, container), None)
+    };
+    let out_s = path_str(out_path);
+    let c = cfg.clone();
+    let r = sim(sched, io, stdin, abort_at, 4, steps, move || {
+        if c.k == 0 {
+            let mut com = composition::cgr::CgrComputer::new(in_path, out_s, c.vecsize);
+            com.set_threads(c.threads);
+            com.set_max_memory(c.memory);
+            com.vectorise()
+        } else {
+            let mut com = composition::oligocgr::OligoCgrComputer::new(in_path, out_s, c.k, c.vecsize);
+            com.set_threads(c.threads);
+            com.set_norm(c.norm);
+            com.set_max_memory(c.memory);
+            com.vectorise()
+        }
+    });
+    let ro = finish(&r, out_path, ());
+    (r, ro)
+}
+
+/// Parse one output row of "(a,b)" or "(a,b,c)" tuples separated by blanks.
+pub fn parse_tuples(line: &str, arity: usize) -> Result<Vec<Vec<f64>>, String> {
+    let mut out = Vec::new();
+    if line.is_empty() {
+        return Ok(out);
+    }
+    for tok in line.split(' ') {
+        let inner = tok
+            .strip_prefix('(')
+            .and_then(|t| t.strip_suffix(')'))
+            .ok_or_else(|| format!("malformed tuple {:?}", clip(tok, 60)))?;
+        let vals: Result<Vec<f64>, _> = inner.split(',').map(|v| v.parse::<f64>()).collect();
+        let vals = vals.map_err(|_| format!("malformed number in {:?}", clip(tok, 60)))?;
+        if vals.len() != arity {
+            return Err(format!("tuple {:?} has {} components, expected {arity}", clip(tok, 60), vals.len()));
+        }
+        out.push(vals);
+    }
+    Ok(out)
+}
